@@ -350,8 +350,14 @@ func r083(c *an.Ctx) {
 	// !ok skips: every send in the update loop is guarded by ok == true
 	nsend := 0
 	an.Instrs(g, func(in ssa.Instruction) {
-		sel, ok := in.(*ssa.Select)
-		if !ok || !an.Dominates(inc, sel) {
+		// a select with a send case, or a call that stands for one (a send helper such as sendOrDone)
+		sel := in
+		if _, isSel := in.(*ssa.Select); !isSel {
+			if _, isCall := in.(*ssa.Call); !isCall || !an.IsSendSite(in) {
+				return
+			}
+		}
+		if !an.Dominates(inc, sel) {
 			return
 		}
 		nsend++
